@@ -1906,6 +1906,10 @@ class Frame(object):
                             all(i[0] == 'C' for i in a.items):
                         return Bytes([('C', b''.join(i[1] for i in a.items) * b.value)])
                     return Bytes([('REP', a.items, render(b))])
+                if isinstance(a, Sym) and a.types and set(a.types) <= {'bytes', 'bytearray'} and not isinstance(b, (Bytes, ListV)) and \
+                        not (isinstance(b, Sym) and b.types and set(b.types) <= {'bytes', 'bytearray'}):
+                    # a value known to be a byte string (typed parameter, `.encode()` result) times a number: that many copies
+                    return Bytes([('REP', as_items(a), render(b))])
         if isinstance(l, Const) and isinstance(r, Const):
             a = l.value.value if isinstance(l.value, Enum) else l.value
             b = r.value.value if isinstance(r.value, Enum) else r.value
